@@ -16,7 +16,12 @@ from common import fx, unfx, rq, enc_list, close
 REQUIRED = ['iptw_weight_spec', 'smr_is_odds', 'iptw_bounded_spec', 'outcome_ipmw_spec', 'stoch_numer',
             'stoch_weight_spec', 'ipmw_monotone', 'ipmw_unobserved_none', 'ipmw_fit_sets', 'ipmw_uniform_collapse',
             'ipmw_recovers_n', 'ipcw_cumprod', 'ipcw_time_order', 'ipcw_subject_local', 'sort_sorted_perm',
-            'uncensored_char', 'flat_uncensored_char']
+            'uncensored_char', 'flat_uncensored_char',
+            # ties to the source (Props/C05_Gen, C05_Ipcw, C05_Ipmw): generated definitions = the model
+            'stoch_iptw_fit_generated', 'stoch_numer_generated', 'stoch_weight_generated',
+            'ipcw_uncensored_generated', 'ipcw_weights_generated', 'uncensored_char_generated', 'flat_uncensored_generated',
+            'ipcw_cumprod_generated', 'ipcw_subject_local_generated',
+            'ipmw_weight_generated', 'ipmw_monotone_generated', 'ipmw_unobserved_none_generated', 'ipmw_recovers_n_generated']
 RULE = ('IPTW: random data sets (n 150-400) with a 2-3 level categorical, a binary and a continuous predictor, every '
         'cell of weights x standardize(3) x {unstabilized, stabilized x numerator model(2)} x bound(none, symmetric '
         'float, asymmetric pair) on a fresh IPTW object; IPTW.missing_model: stabilized x numerator x bound on data with '
